@@ -11,18 +11,19 @@ LEVEL = "proof"
 META = {
     "level": "proof",
     "technique": "Coq proof about a Gallina port of EarClip's linked-list code with all geometry as oracles + extracted exact checker on outputs + decision-replay correspondence",
-    "text": "Coq theorems (for every oracle, i.e. every outcome of the floating-point predicates): the ported EarClip (Link, ClipEar with the topological-degenerate filter, "
-            "recursive ClipIfDegenerate, Loop, FindStart, CutKeyhole/JoinPolygons, TriangulatePoly with the empty-queue fallback) keeps the chain invariant "
-            "boundary(emitted triangles) + edges(live lists) = input contour edges, uses only input indices, performs exactly V+2*joins-live ClipEar calls; "
-            "TriangulateConvex satisfies the same chain identity and count; the area identity is a corollary (shoelace is a linear functional of the chain). "
-            "The extracted, proved-sound checker tri_check decides on every output of /repo's TriangulateIdx (generated polygon families + test/polygons corpus; "
-            "allowConvex on/off, fresh vs reused PolygonTriangulator): index validity, chain identity, exact area sum, count V-2+2h-2(o-1), CCW within 2*eps exactly. "
-            "The extracted model replays the implementation's traced decisions and must reproduce its triangle list and final polygon_ links.",
+    "text": "Coq theorems, for every oracle (= every outcome of the floating-point predicates): Initialize builds closed rings satisfying all invariants (no hypothesis); "
+            "every operation of the ported EarClip (Link, ClipEar with the topological-degenerate filter, recursive ClipIfDegenerate, Loop, FindStart, CutKeyhole/JoinPolygons, "
+            "TriangulatePoly with the empty-queue fallback) preserves: boundary(emitted triangles) + edges(live lists) = input contour edges, triangles over input indices, "
+            "#ClipEar + #live = V + 2*joins; hence chain identity and V-2+2h-2(o-1) whenever the two executable side conditions nbad = 0 / rings_closed hold at the end "
+            "(evaluated on every replayed run; PARTIAL: not proved for every oracle). TriangulateConvex satisfies the same identities (contours of 3..200 vertices). "
+            "The area identity is a corollary of the chain identity. The extracted, proved-sound (and for the chain test complete) checker tri_check decides on every output of "
+            "/repo's TriangulateIdx (11 generated polygon families + test/polygons corpus; allowConvex on/off, fresh vs reused PolygonTriangulator): index validity, chain identity, "
+            "exact area sum, count, CCW within 2*eps exactly. The extracted model replays the implementation's traced decisions and must reproduce its triangle list and final polygon_ links.",
     "note": "Not proved: that each triangle is CCW within epsilon (floating ear costs) - decided per output by the exact checker. Trusted: Coq kernel, extraction, "
             "the harness, the add-only trace hook hooks/C10.patch (applied to a scratch copy of polygon.cpp when not committed), exact scaling of doubles to integers in Python.",
 }
 
-QUICK_CASES = 500
+QUICK_CASES = 400
 THOROUGH_CASES = 12000
 REPLAY_MAXV = 450
 
@@ -487,7 +488,7 @@ def run(cx):
     cx.assumptions += [
         "geometric decisions of EarClip (degenerate test, hole/outer classification, keyhole connector, ear order, queue membership) are oracles: arbitrary functions of the whole state; theorems hold for all of them",
         "not proved: every triangle is CCW within epsilon for epsilon-valid input (depends on floating ear costs) - decided per output by the proved-sound exact checker tri_check",
-        "earclip_contract_partial is in certificate form: its executable hypotheses init_ok (state after Initialize), nbad = 0 (JoinPolygons joins two different live rings; no ring of <= 2 records is clipped) and rings_closed (every remaining ring has <= 2 records) are evaluated on every replayed run (model state = implementation's final polygon_), not proved; fuel sufficiency of Loop/ClipIfDegenerate is not proved (replay uses fuel 2n+8 and must not run out)",
+        "earclip_contract_partial keeps two executable hypotheses: nbad = 0 (JoinPolygons joins two different live rings; no ring of <= 2 records is clipped) and rings_closed (every remaining ring has <= 2 records); both are evaluated on every replayed run (model state = implementation's final polygon_), not proved; fuel sufficiency of Loop/ClipIfDegenerate is not proved (replay uses fuel 2n+8 and must not run out)",
         "convex_strip_chain is proved for contours of 3..200 vertices (bound in the statement)",
         "v->ear iterator validity is modelled as queue membership; hash pairing of HalfedgeTriangulation is checked on outputs (reciprocal, swapped endpoints), not modelled",
         "doubles are scaled to integers exactly (common power of two) by checks/C10.py; tolerance (2*eps)^2 rounded up",
@@ -578,7 +579,9 @@ def run(cx):
                     continue
                 dl.append("RPL %s/%d %d %s %s" % (c["id"], v, len(c["polys"]), idxs, " ".join(ev)))
         dl.append("CVX %s %d %s" % (c["id"], len(c["polys"]), idxs))
-    rc2, dout, derr = vp.sh2([drv], input="\n".join(dl) + "\n", timeout=cx.pick(170, 1700))
+    # the extracted list functions are not tail recursive: give the driver an unlimited stack (65k-vertex corpus polygons)
+    rc2, dout, derr = vp.sh2(["bash", "-c", "ulimit -s unlimited 2>/dev/null || true; exec '%s'" % drv],
+                             input="\n".join(dl) + "\n", timeout=cx.pick(170, 1700))
     if rc2 != 0:
         cx.broke("corr:C10/model-driver", "extracted checker/model driver exited %d: %s" % (rc2, derr[-400:]))
     V, MT, MG, MS, MC = {}, {}, {}, {}, {}
